@@ -69,7 +69,9 @@ theorem Inv.repoint (hI : Inv h) (i : Nat) (hi : i < h.views.length) (v : View)
     Inv ((h.setStore i v.blob).setView i v) ∧
     abs ((h.setStore i v.blob).setView i v) = (abs h).set i (bytesOf h v) ∧
     (∀ k, (((h.setStore i v.blob).setView i v).blob k).data = (h.blob k).data ∧
-          (((h.setStore i v.blob).setView i v).blob k).cap = (h.blob k).cap) := by
+          (((h.setStore i v.blob).setView i v).blob k).cap = (h.blob k).cap ∧
+          (((h.setStore i v.blob).setView i v).blob k).refs =
+            (h.blob k).refs + (if v.blob = k then 1 else 0) - (if (h.view i).blob = k then 1 else 0)) := by
   have hold := (hI.view i hi).1
   have hblob : ∀ k, ((h.setStore i v.blob).setView i v).blob k =
       { h.blob k with refs := (h.blob k).refs + (if v.blob = k then 1 else 0) - (if (h.view i).blob = k then 1 else 0) } := by
@@ -78,7 +80,7 @@ theorem Inv.repoint (hI : Inv h) (i : Nat) (hi : i < h.views.length) (v : View)
   have hdata : ∀ k, (((h.setStore i v.blob).setView i v).blob k).data = (h.blob k).data ∧
       (((h.setStore i v.blob).setView i v).blob k).cap = (h.blob k).cap := by
     intro k; rw [hblob k]; exact ⟨rfl, rfl⟩
-  refine ⟨⟨?_, ?_, ?_, ?_⟩, ?_, hdata⟩
+  refine ⟨⟨?_, ?_, ?_, ?_⟩, ?_, fun k => ⟨(hdata k).1, (hdata k).2, by rw [hblob k]⟩⟩
   · rw [Heap.blobs_length_setStore_setView]; exact hI.proto
   · intro w hw
     rw [Heap.views_setStore_setView] at hw
